@@ -71,6 +71,10 @@ func Load(cfg LoadConfig) (*Prog, error) {
 	if len(initial) == 0 {
 		return nil, fmt.Errorf("no packages loaded from %s", cfg.Root)
 	}
+	intBits = 64
+	if cfg.GOARCH == "386" || cfg.GOARCH == "arm" {
+		intBits = 32
+	}
 	p := &Prog{Root: cfg.Root, ByPath: map[string]*packages.Package{}, SSAPkg: map[string]*ssa.Package{},
 		GOOS: cfg.GOOS, GOARCH: cfg.GOARCH,
 		decls: map[*types.Func]*ast.FuncDecl{}, declPkg: map[*types.Func]*packages.Package{}}
